@@ -37,6 +37,43 @@ pub fn base_frames() -> Vec<(String, Vec<u8>)> {
             if net == Net::None || link == Link::Unknown {
                 trs = vec![Trans::Other];
             }
+            // length fields (IPv4 total length, IPv6 payload length, UDP length) that agree with the capture, fall
+            // short of it (padding / trailer after the announced end), are zero, or exceed it (snap-truncated)
+            if matches!(link, Link::Eth | Link::Vlan1) && matches!(net, Net::V4(5) | Net::V4(6) | Net::V6) {
+                for tr in [Trans::Udp, Trans::Tcp(5)] {
+                    for variant in ["exact", "short", "zero", "long", "udp-short"] {
+                        let mut f = build_frame(link, net, tr, 24);
+                        let ip = if link == Link::Eth { 14 } else { 18 };
+                        let (iphl, v4) = match net {
+                            Net::V4(ihl) => ((ihl as usize) * 4, true),
+                            _ => (40, false),
+                        };
+                        let l4 = ip + iphl;
+                        let l4hl = if tr == Trans::Udp { 8 } else { 20 };
+                        let end = f.len();
+                        let pick = |exact: usize, short: usize| -> u16 {
+                            (match variant {
+                                "exact" | "udp-short" => exact,
+                                "short" => short,
+                                "zero" => 0,
+                                _ => exact + 100,
+                            }) as u16
+                        };
+                        if v4 {
+                            let v = pick(end - ip, iphl + l4hl);
+                            f[ip + 2..ip + 4].copy_from_slice(&v.to_be_bytes());
+                        } else {
+                            let v = pick(end - l4, l4hl);
+                            f[ip + 4..ip + 6].copy_from_slice(&v.to_be_bytes());
+                        }
+                        if tr == Trans::Udp {
+                            let v: u16 = if variant == "udp-short" { 12 } else { pick(end - l4, 8) };
+                            f[l4 + 4..l4 + 6].copy_from_slice(&v.to_be_bytes());
+                        }
+                        v.push((format!("{:?}/{:?}/{:?}/+24/lengths-{}", link, net, tr, variant), f));
+                    }
+                }
+            }
             for tr in trs {
                 for payload in [0usize, 1, 24] {
                     if payload == 1 && !(matches!(net, Net::V4(5)) || net == Net::V6) {
